@@ -446,3 +446,70 @@ func TestVerifC01RealConn(t *testing.T) {
 		}
 	}
 }
+
+// TestVerifC01SizeSweep round-trips a packet of EVERY body length in the swept set
+// (followed by a sentinel packet that must stay aligned): a size-dependent fast path or
+// buffer-class bound in the writer/reader shows up at exactly the sizes it mishandles.
+func TestVerifC01SizeSweep(t *testing.T) {
+	run := vk.Start(t, "C01", "sizesweep")
+	defer run.Finish()
+	run.Rule("one TunnelData packet of body length n followed by a sentinel packet, for every n in 0..4300 and +-24 around every power of two up to 1 MiB (thorough: every n in 0..70000), compression off and on (on for n<=4300 and the power-of-two windows), decoded whole and in 7-byte chunks; distinct = (n, compress)")
+	sizes := map[int]bool{}
+	top := run.Pick(4300, 70000)
+	for n := 0; n <= top; n++ {
+		sizes[n] = true
+	}
+	for c := 1; c <= 1<<20; c *= 2 {
+		for d := -24; d <= 24; d++ {
+			if c+d >= 0 {
+				sizes[c+d] = true
+			}
+		}
+	}
+	count := 0
+	for n := 0; n <= (1<<20)+24; n++ {
+		if !sizes[n] {
+			continue
+		}
+		for _, comp := range []bool{false, true} {
+			if comp && run.Thorough() && n > 4300 && n%97 != 0 && !(n&(n-1) == 0) {
+				continue
+			}
+			seq := []c01pkt{{Type: byte(packet.TunnelData), Compress: comp, Payload: vk.Pattern(uint64(n), 0, n)}, {Type: byte(packet.TunnelClose), Payload: []byte("sentinel")}}
+			run.Case(fmt.Sprintf("sweep|n=%d|comp=%v", n, comp), nil)
+			wire, err := c01Encode(seq)
+			if err != nil {
+				run.Count("writer_refused", 1)
+				continue
+			}
+			for _, part := range []string{"whole", "chunk7"} {
+				chunks := []int{len(wire)}
+				if part == "chunk7" {
+					if n > 70000 {
+						continue
+					}
+					chunks = nil
+					for left := len(wire); left > 0; left -= 7 {
+						c := 7
+						if left < 7 {
+							c = left
+						}
+						chunks = append(chunks, c)
+					}
+				}
+				cr := vk.NewChunkReader(wire, chunks)
+				nn, cc := n, comp
+				c01Decode(run, seq, cr, cr.Delivered, "sweep-"+part, func() any { return map[string]any{"n": nn, "compress": cc} })
+				run.Eval(1)
+			}
+			run.Distinct(fmt.Sprintf("%d|%v", n, comp))
+			count++
+		}
+		if run.Violations() > 5 {
+			break
+		}
+	}
+	run.Sample(map[string]any{"sizes_swept": count})
+	run.Count("sizes_swept", int64(count))
+	run.Floor("sizes_swept", 8000)
+}
